@@ -52,7 +52,7 @@ def op_name(e):
 
 def run_shard(params, rec):
     common.quiet()
-    common.limit_memory(2)
+    common.limit_memory(0.4)   # bounds the integers a wrong shift count can build (see assumptions)
     from miasm.expression import expression as m2
     from miasm.ir.translators.python import TranslatorPython
     from miasm.ir.translators.miasm_ir import TranslatorMiasm
@@ -97,9 +97,11 @@ def run_shard(params, rec):
         return refsem.Env(ids=vals, seed=seed)
 
     def shift_class(e, env):
-        """largest '<<' count with a non-zero shifted value among the sub-terms
-        (None when some operand is undefined)"""
+        """class of the '<<' counts with a non-zero shifted value among the
+        sub-terms: HUGE_LO when one lies in [2^24, 2^40) (not evaluated),
+        else HUGE_HI when one is >= 2^40, else 0"""
         worst = 0
+        mid = False
         for s in X.subterms(e):
             if s.__class__ is m2.ExprOp and s.op == '<<' and len(s.args) == 2:
                 try:
@@ -109,7 +111,8 @@ def run_shard(params, rec):
                     continue
                 if a:
                     worst = max(worst, c)
-        return worst
+                    mid = mid or HUGE_LO <= c < HUGE_HI
+        return HUGE_LO if mid else (HUGE_HI if worst >= HUGE_HI else 0)
 
     def py_eval(code, env):
         ns = {"memory": memory_for(env)}
@@ -144,8 +147,8 @@ def run_shard(params, rec):
                 continue
             if any(a + nb > (1 << pw) for a, nb, pw in env.reads):
                 continue    # a read that wraps (possible in a branch not taken): not modelled
-            if s.__class__ is m2.ExprOp and s.op == '<<' and HUGE_LO <= shift_class(s, env) < HUGE_HI:
-                continue
+            if HUGE_LO <= shift_class(s, env) < HUGE_HI:
+                continue    # some '<<' below would build an integer of up to 2^40 bits
             try:
                 src = TranslatorPython().from_expr(s)
                 got = py_eval(compile(src, "<c07>", "eval"), env)
